@@ -5,6 +5,7 @@ import (
 	"encoding/json"
 	"errors"
 	"fmt"
+	"math"
 	"math/big"
 	"strconv"
 
@@ -607,6 +608,13 @@ func (sc *StorageSmartContract) commitBlobberRead(t *transaction.Transaction,
 	if err != nil {
 		return "", common.NewErrorf("commit_blobber_read",
 			"error fetching blobber object: %v", err)
+	}
+
+	// the byte count numReads*CHUNK_SIZE is an int64: refuse an increment whose byte count would overflow,
+	// otherwise the product wraps and the read is charged for the wrapped (possibly zero) size
+	if d := commitRead.ReadMarker.ReadCounter - lastKnownCtr; d < 0 || d > math.MaxInt64/CHUNK_SIZE {
+		return "", common.NewError("commit_blobber_read",
+			"read counter increment is out of range")
 	}
 
 	var (
